@@ -555,6 +555,9 @@ type WalkOpts struct {
 	CutInstrEnv func(ssa.Instruction, Env) bool
 	MaxStates   int
 	Exceeded    *bool
+	// PruneContradictions drops paths that take two branch edges whose (phi-free) conditions contradict
+	// each other syntactically, e.g.  x != ""  false  followed by  x == ""  false.
+	PruneContradictions bool
 }
 
 // WalkCP explores all paths from `from`, folding branches on phis whose value on
@@ -567,9 +570,10 @@ func WalkCP(from Point, initEnv Env, target func(ssa.Instruction) bool, o ReachO
 // WalkEnv is WalkCP with env-aware instruction cuts.
 func WalkEnv(from Point, initEnv Env, target func(ssa.Instruction) bool, o WalkOpts) []Reached {
 	type state struct {
-		b   *ssa.BasicBlock
-		idx int
-		env Env
+		b     *ssa.BasicBlock
+		idx   int
+		env   Env
+		facts []string // "L\x00op\x00R" of branch edges taken (PruneContradictions)
 	}
 	var out []Reached
 	seen := map[string]bool{}
@@ -581,7 +585,7 @@ func WalkEnv(from Point, initEnv Env, target func(ssa.Instruction) bool, o WalkO
 	if max == 0 {
 		max = 200000
 	}
-	work := []state{{from.Block, from.Idx, initEnv}}
+	work := []state{{from.Block, from.Idx, initEnv, nil}}
 	for len(work) > 0 {
 		if len(seen) > max {
 			if o.Exceeded != nil {
@@ -631,6 +635,33 @@ func WalkEnv(from Point, initEnv Env, target func(ssa.Instruction) bool, o WalkO
 			if o.CutEdge != nil && o.CutEdge(st.b, k) {
 				continue
 			}
+			facts := st.facts
+			if o.PruneContradictions && len(st.b.Succs) == 2 && len(st.b.Instrs) > 0 {
+				if ifi, ok := st.b.Instrs[len(st.b.Instrs)-1].(*ssa.If); ok {
+					f := FactOf(ifi.Cond, k == 0)
+					if !f.L.Any(func(t *Term) bool { return t.Op == "phi" || t.Op == "unknown" }) && !f.R.Any(func(t *Term) bool { return t.Op == "phi" || t.Op == "unknown" }) {
+						l, r := f.L.String(), f.R.String()
+						contra := false
+						for _, pf := range st.facts {
+							parts := strings.SplitN(pf, "\x00", 3)
+							pl, pop, pr := parts[0], parts[1], parts[2]
+							if pl == l && pr == r && negOp[pop] == f.Op {
+								contra = true
+							}
+							if pl == r && pr == l && negOp[pop] == swapOp[f.Op] {
+								contra = true
+							}
+							if pl == l && pop == "==" && f.Op == "==" && ((pr == "`true`" && r == "`false`") || (pr == "`false`" && r == "`true`")) {
+								contra = true
+							}
+						}
+						if contra {
+							continue
+						}
+						facts = append(append([]string{}, st.facts...), l+"\x00"+f.Op+"\x00"+r)
+					}
+				}
+			}
 			succ := st.b.Succs[k]
 			env := st.env.clone()
 			newVals := map[*ssa.Phi]ssa.Value{}
@@ -664,9 +695,14 @@ func WalkEnv(from Point, initEnv Env, target func(ssa.Instruction) bool, o WalkO
 				}
 			}
 			key := fmt.Sprintf("%d|%s", succ.Index, env.key())
+			if o.PruneContradictions {
+				fk := append([]string{}, facts...)
+				sort.Strings(fk)
+				key += "|" + strings.Join(fk, ";")
+			}
 			if !seen[key] {
 				seen[key] = true
-				work = append(work, state{succ, 0, env})
+				work = append(work, state{succ, 0, env, facts})
 			}
 		}
 	}
@@ -693,4 +729,11 @@ func OnlyViaCP(from Point, target func(ssa.Instruction) bool, needs ...FactM) (b
 		}
 	}
 	return len(bypass) == 0, bypass
+}
+
+// CanReachFeasible is CanReach with constant folding and pruning of syntactically contradictory branch sequences.
+func CanReachFeasible(from Point, target func(ssa.Instruction) bool, o ReachOpts) bool {
+	exceeded := false
+	r := WalkEnv(from, nil, target, WalkOpts{ReachOpts: o, PruneContradictions: true, Exceeded: &exceeded, MaxStates: 100000})
+	return len(r) > 0 || exceeded
 }
